@@ -224,4 +224,10 @@ theorem c04_convex_uniform (w1 w2 w3 t : K) (h1 : 0 ≤ w1) (h2 : 0 ≤ w2) (h3 
   have := Dassh.Convex.bounds3 w1 w2 w3 t t t t t h1 h2 h3 hs ⟨le_refl _, le_refl _⟩ ⟨le_refl _, le_refl _⟩ ⟨le_refl _, le_refl _⟩
   exact le_antisymm this.2 this.1
 
+/-- **Duct-average model, any number of adjacent ducts.**  The mean of the duct-wall temperatures a gap cell touches lies between
+any bounds of them (general form of the `gapda_*_bounds` corollaries, which are stated on the traced cells). -/
+theorem c04_duct_average_bounds (walls : List K) (hne : walls ≠ []) (lo hi : K) (h : ∀ t ∈ walls, lo ≤ t ∧ t ≤ hi) :
+    lo ≤ walls.sum / (walls.length : K) ∧ walls.sum / (walls.length : K) ≤ hi :=
+  Dassh.Convex.mean_bounds walls hne lo hi h
+
 end Dassh.Props.C04
